@@ -281,6 +281,27 @@ def entry_points(data, all_keys):
     res["iter_guardrail_configs_with_beacon"] = cls(patient(lambda: sum(1 for _ in guardrails.iter_guardrail_configs_with_beacon(io.BytesIO(data))), seconds=120))
     res["parse_raw_http"] = cls(patient(c2.parse_raw_http, data, seconds=10))
     res["BeaconConfig(block)"] = cls(patient(lambda: B(data[:70000]).raw_settings, seconds=20))
+    # the same input with debug logging switched on (what the command line tools do with -vv): the parsers then also format what they log
+    import logging
+
+    root = logging.getLogger()
+    old_level, null = root.level, logging.NullHandler()
+    root.addHandler(null)
+    root.setLevel(logging.DEBUG)
+    old_disable = logging.root.manager.disable
+    logging.disable(logging.NOTSET)
+    try:
+        for name in ("find_mz_offset", "find_compile_stamps", "find_magic_mz", "find_magic_pe", "find_stage_prepend_append", "find_architecture"):
+            res["pe." + name + "(debug logging)"] = cls(patient(getattr(pe, name), io.BytesIO(data), seconds=20))
+        res["XorEncodedFile.from_file(debug logging)"] = cls(patient(xordecode.XorEncodedFile.from_file, io.BytesIO(data), seconds=20))
+        res["parse_raw_http(debug logging)"] = cls(patient(c2.parse_raw_http, data, seconds=10))
+        res["BeaconConfig(block)(debug logging)"] = cls(patient(lambda: B(data[:70000]).raw_settings, seconds=20))
+        if len(data) < 40000:
+            res["from_bytes(debug logging)"] = cls(patient(B.from_bytes, data, seconds=_G.get("budget", 30)))
+    finally:
+        root.setLevel(old_level)
+        root.removeHandler(null)
+        logging.disable(old_disable)
     return res
 
 
